@@ -624,7 +624,7 @@ pub fn rand_common(ctx: &mut Ctx, allow_npf: bool) -> Common {
     Common { tokens, pad, prefix, suffix }
 }
 
-fn emit_tok(ctx: &mut Ctx, op: &str, kind: &Kind, c: &Common, s: &str, ign: bool, g_byte: bool) {
+pub fn emit_tok(ctx: &mut Ctx, op: &str, kind: &Kind, c: &Common, s: &str, ign: bool, g_byte: bool) {
     let mut v = vec![];
     enc_kind(&mut v, kind);
     enc_common(&mut v, c);
